@@ -1,8 +1,502 @@
 package main
 
-import "simverif/cf"
+import (
+	"fmt"
+	"strings"
+	"time"
 
-type fetchModel struct{}
+	"github.com/Shopify/sarama"
 
-func (f *fetchModel) timedFault(x *cf.Fault) bool     { return false }
-func (f *fetchModel) handleFetch(c *simConn, h reqHeader) {}
+	"simverif/cf"
+)
+
+// fetchModel serves Fetch and ListOffsets from the model logs the way a broker frames data
+// (DESIGN.md Appendix A), with its own encoder.
+type fetchModel struct {
+	cl      *cluster
+	pending []*pendingFetch
+	rng     *cf.Rng
+	// what the broker answered to the latest "newest"/"oldest" ListOffsets per partition (oracle input)
+	answered map[string]int64
+	onServe  func(key string, fetchOffset int64, firstServed, lastServed int64)
+}
+
+type pendingFetch struct {
+	c        *simConn
+	h        reqHeader
+	req      *fetchReq
+	deadline time.Time
+	done     bool
+}
+
+func newFetchModel(cl *cluster, seed uint64) *fetchModel {
+	return &fetchModel{cl: cl, rng: &cf.Rng{S: seed}, answered: map[string]int64{}}
+}
+
+func (f *fetchModel) timedFault(x *cf.Fault) bool {
+	switch x.Do {
+	case "append":
+		return true
+	}
+	return false
+}
+
+// loadLogs installs the pre-loaded logs of the case and schedules in-run appends.
+func (f *fetchModel) loadLogs(c *cf.Case) {
+	for i := range c.Cluster.Logs {
+		lg := &c.Cluster.Logs[i]
+		mp := f.cl.part(lg.Topic, lg.Partition)
+		if mp == nil {
+			panic("log for unknown partition")
+		}
+		mp.magic = lg.Magic
+		mp.absInner = lg.AbsInner
+		mp.logStart = lg.LogStart
+		mp.leo = lg.LogStart
+		for j := range lg.Batches {
+			b := &lg.Batches[j]
+			if b.AtUs > 0 {
+				bb := b
+				f.cl.k.after(time.Duration(b.AtUs)*time.Microsecond, func() {
+					f.storeBatch(mp, bb)
+					f.wake()
+				})
+				continue
+			}
+			f.storeBatch(mp, b)
+		}
+	}
+}
+
+func recKey(id, n int) []byte {
+	if n < 0 {
+		return nil
+	}
+	if n == 0 {
+		return []byte{}
+	}
+	return pad(fmt.Sprintf("k%d", id), n)
+}
+
+func recVal(id, n int) []byte {
+	if n < 0 {
+		return nil
+	}
+	return msgValue(id, n)
+}
+
+func (f *fetchModel) storeBatch(mp *mpart, b *cf.Batch) {
+	base := b.Base
+	if base < mp.leo {
+		base = mp.leo
+	}
+	wb := wbatch{magic: int8(mp.magic), codec: codecID(b.Codec), baseOffset: base, pid: -1, epoch: -1, baseSeq: -1}
+	if mp.magic == 2 {
+		if b.PID > 0 {
+			wb.pid = b.PID
+			wb.epoch = 0
+			wb.baseSeq = 0
+		}
+		wb.txn = b.Txn
+		wb.control = b.Control != ""
+	}
+	mb := &mbatch{first: base, atUs: f.cl.k.nowUs()}
+	maxTs := int64(-1)
+	for i, r := range b.Recs {
+		d := int64(i)
+		if len(b.Deltas) == len(b.Recs) {
+			d = int64(b.Deltas[i])
+		}
+		wr := wrec{key: recKey(r.ID, r.KeyLen), val: recVal(r.ID, r.ValLen), delta: d, tsMs: r.TsMs}
+		if mp.magic == 0 {
+			wr.tsMs = -1
+		}
+		if b.Control != "" {
+			// control record: key = version(int16) type(int16), value = version(int16) coordinatorEpoch(int32)
+			typ := byte(1) // commit
+			if b.Control == "abort" {
+				typ = 0
+			}
+			wr.key = []byte{0, 0, 0, typ}
+			wr.val = []byte{0, 0, 0, 0, 0, 0}
+		}
+		for h := 0; h < r.Headers && mp.magic == 2; h++ {
+			hv := []byte(fmt.Sprintf("v%d-%d", r.ID, h))
+			if h == 1 {
+				hv = nil
+			}
+			wr.headers = append(wr.headers, hdr{[]byte(fmt.Sprintf("h%d", h)), hv})
+		}
+		if wr.tsMs > maxTs {
+			maxTs = wr.tsMs
+		}
+		wb.recs = append(wb.recs, wr)
+		mb.recs = append(mb.recs, &mrec{offset: base + d, key: wr.key, val: wr.val, headers: wr.headers, tsMs: wr.tsMs, batch: mb})
+	}
+	if len(wb.recs) > 0 {
+		wb.firstTs = wb.recs[0].tsMs
+	}
+	wb.maxTs = maxTs
+	last := int64(0)
+	if n := len(wb.recs); n > 0 {
+		last = wb.recs[n-1].delta
+	}
+	if int64(b.LastDelta) > last {
+		last = int64(b.LastDelta)
+	}
+	wb.lastDelta = int32(last)
+	mb.wb = wb
+	mb.last = base + last
+	mp.leo = mb.last + 1
+	mp.batches = append(mp.batches, mb)
+	// transaction bookkeeping
+	if mp.magic == 2 && b.PID > 0 {
+		if b.Control != "" {
+			if first, open := mp.openTxn[b.PID]; open {
+				if b.Control == "abort" {
+					mp.aborted = append(mp.aborted, abortedTxn{pid: b.PID, first: first, last: mb.first})
+				}
+				delete(mp.openTxn, b.PID)
+			}
+		} else if b.Txn {
+			if _, open := mp.openTxn[b.PID]; !open {
+				mp.openTxn[b.PID] = mb.first
+			}
+		}
+	}
+}
+
+func (mp *mpart) lso() int64 {
+	l := mp.leo
+	for _, first := range mp.openTxn {
+		if first < l {
+			l = first
+		}
+	}
+	return l
+}
+
+func (f *fetchModel) encodeStored(mp *mpart, b *mbatch) []byte {
+	if b.wb.magic == 2 {
+		return encodeBatchV2(&b.wb)
+	}
+	return encodeLegacy(&b.wb, mp.absInner)
+}
+
+type fetchBlock struct {
+	topic   string
+	part    int32
+	err     int16
+	hwm     int64
+	lso     int64
+	logStart int64
+	aborted []abortedTxn
+	data    []byte
+	omit    bool
+}
+
+func (f *fetchModel) handleFetch(c *simConn, h reqHeader) {
+	cl := f.cl
+	req, err := decodeFetch(h.ver, h.body)
+	if err != nil {
+		R.violate(propRule("request-undecodable"), "fetch v%d request does not parse: %v", h.ver, err)
+		c.serverClose(true)
+		return
+	}
+	names := func(t string, p int32) bool {
+		for _, x := range req.parts {
+			if x.topic == t && x.partition == p {
+				return true
+			}
+		}
+		return false
+	}
+	fault := cl.matchRule("Fetch", c.br, names)
+	var desc []string
+	for _, p := range req.parts {
+		desc = append(desc, fmt.Sprintf("%s/%d@%d<=%d", p.topic, p.partition, p.offset, p.maxBytes))
+	}
+	cl.k.logf("b%d c%d Fetch v%d corr=%d %s", c.br.id, c.id, h.ver, h.corr, strings.Join(desc, " "))
+	if fault != nil {
+		switch fault.Do {
+		case "drop-before", "drop-after":
+			cl.k.logf("  -> fault %s", fault.Do)
+			cl.noteFault(fault.Do)
+			c.serverClose(false)
+			return
+		case "silence":
+			cl.k.logf("  -> fault silence")
+			cl.noteFault("silence")
+			return
+		case "throttle-empty":
+			cl.noteFault("throttle-empty")
+			cl.k.logf("  -> fault throttle-empty")
+			cl.respond(c, respHeader(h.corr, f.encode(h.ver, nil, 100)), 0)
+			return
+		}
+	}
+	pf := &pendingFetch{c: c, h: h, req: req, deadline: time.Now().Add(time.Duration(req.maxWaitMs) * time.Millisecond)}
+	if f.tryComplete(pf, fault, false) {
+		return
+	}
+	f.pending = append(f.pending, pf)
+	cl.k.after(time.Duration(req.maxWaitMs)*time.Millisecond, func() {
+		if !pf.done {
+			f.tryComplete(pf, nil, true)
+		}
+	})
+}
+
+func (f *fetchModel) wake() {
+	var keep []*pendingFetch
+	for _, pf := range f.pending {
+		if pf.done {
+			continue
+		}
+		if !f.tryComplete(pf, nil, false) {
+			keep = append(keep, pf)
+		}
+	}
+	f.pending = keep
+}
+
+// tryComplete builds the response; unless force, it declines when fewer than minBytes are available
+// and no partition reports an error (long poll).
+func (f *fetchModel) tryComplete(pf *pendingFetch, fault *cf.Fault, force bool) bool {
+	cl := f.cl
+	c, h, req := pf.c, pf.h, pf.req
+	if c.isDead() || !c.br.up {
+		pf.done = true
+		return true
+	}
+	var blocks []*fetchBlock
+	total := 0
+	anyErr := false
+	respBudget := int(req.maxBytes)
+	if h.ver < 3 || respBudget <= 0 {
+		respBudget = 1 << 30
+	}
+	for _, p := range req.parts {
+		blk := &fetchBlock{topic: p.topic, part: p.partition, hwm: -1, lso: -1, logStart: -1}
+		blocks = append(blocks, blk)
+		mp := cl.part(p.topic, p.partition)
+		faultHere := fault != nil && (fault.AllParts || (fault.Topic == p.topic && fault.Partition == p.partition))
+		switch {
+		case mp == nil:
+			blk.err = int16(sarama.ErrUnknownTopicOrPartition)
+		case mp.leader != c.br.id:
+			blk.err = int16(sarama.ErrNotLeaderForPartition)
+		case fault != nil && fault.Do == "errcode" && faultHere:
+			blk.err = int16(fault.Code)
+			cl.noteFault("fetch-errcode")
+		case p.offset < mp.logStart || p.offset > mp.leo:
+			blk.err = int16(sarama.ErrOffsetOutOfRange)
+			blk.hwm, blk.logStart = mp.leo, mp.logStart
+		}
+		if blk.err != 0 {
+			anyErr = true
+			continue
+		}
+		if fault != nil && fault.Do == "missing-block" && faultHere {
+			blk.omit = true
+			anyErr = true
+			cl.noteFault("incomplete-response")
+			continue
+		}
+		blk.hwm, blk.lso, blk.logStart = mp.leo, mp.lso(), mp.logStart
+		limit := mp.leo
+		if req.isolation == 1 {
+			limit = blk.lso
+		}
+		budget := int(p.maxBytes)
+		if budget > respBudget {
+			budget = respBudget
+		}
+		first, last := int64(-1), int64(-1)
+		for _, b := range mp.batches {
+			if b.last < p.offset {
+				continue
+			}
+			if b.first >= limit {
+				break
+			}
+			if b.last >= limit && b.wb.magic == 2 {
+				break // whole batches only below the visible end
+			}
+			enc := f.encodeStored(mp, b)
+			if len(blk.data)+len(enc) > budget {
+				if h.ver >= 3 {
+					if len(blk.data) == 0 && total == 0 {
+						// minOneMessage: the first batch of the first non-empty partition is returned whole
+						blk.data = append(blk.data, enc...)
+						R.probe("oversize-first-batch-returned-whole")
+						first, last = b.first, b.last
+					}
+				} else {
+					// old fetch versions cut the byte stream at the budget (partial trailing message)
+					room := budget - len(blk.data)
+					if room > 0 {
+						blk.data = append(blk.data, enc[:room]...)
+						R.probe("partial-trailing-message")
+						cl.noteFaultQuiet("partial-trailing")
+					}
+				}
+				break
+			}
+			blk.data = append(blk.data, enc...)
+			if first < 0 {
+				first = b.first
+			}
+			last = b.last
+		}
+		if fault != nil && fault.Do == "flip-checksummed" && faultHere && len(blk.data) > 30 {
+			// flip one bit inside the CRC-covered bytes of the first batch/message (bytes outside a
+			// checksum - base offset, length - are not protected by the protocol and are left alone)
+			elen := 12 + int(int32(uint32(blk.data[8])<<24|uint32(blk.data[9])<<16|uint32(blk.data[10])<<8|uint32(blk.data[11])))
+			if elen > len(blk.data) {
+				elen = len(blk.data)
+			}
+			lo := 16
+			if mp.magic == 2 {
+				lo = 21
+			}
+			if elen <= lo {
+				lo = elen - 1
+			}
+			pos := lo + f.rng.Intn(elen-lo)
+			blk.data = append([]byte(nil), blk.data...)
+			blk.data[pos] ^= 1 << uint(f.rng.Intn(8))
+			cl.noteFault("flip-checksummed")
+			cl.k.logf("  -> flipped a bit at %d of %s/%d data", pos, p.topic, p.partition)
+		}
+		if req.isolation == 1 && h.ver >= 4 && last >= 0 {
+			for _, a := range mp.aborted {
+				if a.last >= p.offset && a.first <= last {
+					blk.aborted = append(blk.aborted, a)
+				}
+			}
+			// any order
+			for i := len(blk.aborted) - 1; i > 0; i-- {
+				j := f.rng.Intn(i + 1)
+				blk.aborted[i], blk.aborted[j] = blk.aborted[j], blk.aborted[i]
+			}
+		}
+		total += len(blk.data)
+		respBudget -= len(blk.data)
+		if respBudget < 0 {
+			respBudget = 0
+		}
+		if f.onServe != nil && first >= 0 {
+			f.onServe(mp.key(), p.offset, first, last)
+		}
+	}
+	if !force && !anyErr && total < int(req.minBytes) {
+		return false
+	}
+	if !force && !anyErr && total == 0 {
+		return false
+	}
+	pf.done = true
+	var desc []string
+	for _, b := range blocks {
+		if b.omit {
+			desc = append(desc, fmt.Sprintf("%s/%d:MISSING", b.topic, b.part))
+		} else {
+			desc = append(desc, fmt.Sprintf("%s/%d:err%d,%dB,hwm%d", b.topic, b.part, b.err, len(b.data), b.hwm))
+		}
+	}
+	cl.k.logf("b%d c%d FetchResponse corr=%d %s", c.br.id, c.id, h.corr, strings.Join(desc, " "))
+	var delay time.Duration
+	if fault != nil && fault.Do == "delay" {
+		delay = time.Duration(fault.Us) * time.Microsecond
+		cl.noteFault("delay")
+	}
+	cl.respond(c, respHeader(h.corr, f.encode(h.ver, blocks, 0)), delay)
+	return true
+}
+
+func (cl *cluster) noteFaultQuiet(kind string) { R.fired(kind) }
+
+func (f *fetchModel) encode(ver int16, blocks []*fetchBlock, throttleMs int32) []byte {
+	var w wr
+	if ver >= 1 {
+		w.i32(throttleMs)
+	}
+	if ver >= 7 {
+		w.i16(0)
+		w.i32(0)
+	}
+	var topics []string
+	by := map[string][]*fetchBlock{}
+	for _, b := range blocks {
+		if b.omit {
+			continue
+		}
+		if _, ok := by[b.topic]; !ok {
+			topics = append(topics, b.topic)
+		}
+		by[b.topic] = append(by[b.topic], b)
+	}
+	w.i32(int32(len(topics)))
+	for _, t := range topics {
+		w.str(t)
+		w.i32(int32(len(by[t])))
+		for _, b := range by[t] {
+			w.i32(b.part)
+			w.i16(b.err)
+			w.i64(b.hwm)
+			if ver >= 4 {
+				w.i64(b.lso)
+				if ver >= 5 {
+					w.i64(b.logStart)
+				}
+				if b.aborted == nil {
+					w.i32(-1)
+				} else {
+					w.i32(int32(len(b.aborted)))
+					for _, a := range b.aborted {
+						w.i64(a.pid)
+						w.i64(a.first)
+					}
+				}
+			}
+			if ver >= 11 {
+				w.i32(-1)
+			}
+			w.i32(int32(len(b.data)))
+			w.raw(b.data)
+		}
+	}
+	return w.b
+}
+
+// listOffsets answers an OffsetRequest (v0/v1).
+func (f *fetchModel) listOffsets(br *mbroker, r *sarama.OffsetRequest, fault *cf.Fault) *sarama.OffsetResponse {
+	cl := f.cl
+	res := &sarama.OffsetResponse{Version: r.Version}
+	for _, tp := range sarama.VerifOffsetRequestBlocks(r) {
+		mp := cl.part(tp.Topic, tp.Partition)
+		key := fmt.Sprintf("%s/%d", tp.Topic, tp.Partition)
+		switch {
+		case mp == nil:
+			res.AddTopicPartition(tp.Topic, tp.Partition, -1)
+			res.Blocks[tp.Topic][tp.Partition].Err = sarama.ErrUnknownTopicOrPartition
+		case mp.leader != br.id:
+			res.AddTopicPartition(tp.Topic, tp.Partition, -1)
+			res.Blocks[tp.Topic][tp.Partition].Err = sarama.ErrNotLeaderForPartition
+		case fault != nil && fault.Do == "errcode":
+			res.AddTopicPartition(tp.Topic, tp.Partition, -1)
+			res.Blocks[tp.Topic][tp.Partition].Err = sarama.KError(fault.Code)
+			cl.noteFault("listoffsets-errcode")
+		default:
+			off := mp.leo
+			if tp.Time == -2 {
+				off = mp.logStart
+			}
+			res.AddTopicPartition(tp.Topic, tp.Partition, off)
+			f.answered[fmt.Sprintf("%s|%d", key, tp.Time)] = off
+			cl.k.logf("b%d ListOffsets %s time=%d -> %d", br.id, key, tp.Time, off)
+		}
+	}
+	return res
+}
